@@ -104,16 +104,16 @@ def run(ctx):
     inv = ["C11", "Progress", "RunEquiv"]
     abs2 = Tla("AbstractStreams({3, 4, 5, 6}, 3, 5)")                 # 2 byte header: <= 3 frames of 3..6 bytes, 6 is oversize
     abs8 = Tla("AbstractStreams({9, 10, 12}, %d, 10)" % (2 if q else 3))  # 8 byte header: frames of 9..12 bytes, 12 is oversize
-    ctx.model_check("dec_hdr2", "MCFraming", dec_consts(abs2, HdrLen=2, Peek=3), inv, view="MView")
-    ctx.model_check("dec_hdr8", "MCFraming", dec_consts(abs8), inv, view="MView")
+    ctx.model_check("dec_hdr2", "MCFraming", dec_consts(abs2, HdrLen=2, Peek=3), inv, view="MView", workers=4)
+    ctx.model_check("dec_hdr8", "MCFraming", dec_consts(abs8), inv, view="MView", workers=4)
     two = Tla("AbstractStreams({9, 12}, 2, 0)")
-    ctx.model_check("dev_peek7", "MCFraming", dec_consts(two, Peek=7), ["C11"], view="MView", expect_violation="C11")
-    ctx.model_check("dev_slack", "MCFraming", dec_consts(two, Slack=1), ["C11"], view="MView", expect_violation="C11")
+    ctx.model_check("dev_peek7", "MCFraming", dec_consts(two, Peek=7), ["C11"], view="MView", expect_violation="C11", workers=4)
+    ctx.model_check("dev_slack", "MCFraming", dec_consts(two, Slack=1), ["C11"], view="MView", expect_violation="C11", workers=4)
     # every sequence of partial / zero / pending writes for every script of <= 3 messages of <= 3 chunks, <= 10 (quick: 6) bytes
     scripts = Tla("AbstractScripts(1..5, 3, 3, %d, %d)" % ((6, 1) if q else (10, 2)))
-    ctx.model_check("sendbuf", "MCFraming", sb_consts(scripts), inv, view="MView", timeout=1500)
+    ctx.model_check("sendbuf", "MCFraming", sb_consts(scripts), inv, view="MView", timeout=1500, workers=4)
     ctx.model_check("dev_losetail", "MCFraming", sb_consts(Tla("AbstractScripts(1..4, 2, 2, 6, 1)"), LoseTail=True), ["C11"],
-                    view="MView", expect_violation="C11")
+                    view="MView", expect_violation="C11", workers=4)
 
     # ------------------------------------------------------------------ 2. real frames
     names = ["hel", "hel0", "ack", "err", "err0", "opn", "clo", "msg", "abort", "tiny12", "tiny13", "w:100", "w:9000", "w:18000"]
@@ -123,7 +123,7 @@ def run(ctx):
     gens = []
 
     def gen_dec(name, streams, simulate=None, limit=None):
-        h, r = ctx.gen(name, "GenFraming", dec_consts(tla_set(streams)), simulate=simulate, timeout=1500,
+        h, r = ctx.gen(name, "GenFraming", dec_consts(tla_set(streams)), simulate=simulate, timeout=1500, workers=4,
                        spec="GSpecSim" if simulate else "GSpec")
         by = {}
         for x in h:
@@ -157,7 +157,7 @@ def run(ctx):
     m1, m2, m3 = msgs["w:100"], msgs["w:9000"], msgs["w:18000"]
 
     def gen_sb(name, scr, simulate=None, limit=None):
-        h, r = ctx.gen(name, "GenFraming", sb_consts(tla_set(scr)), simulate=simulate, timeout=1500,
+        h, r = ctx.gen(name, "GenFraming", sb_consts(tla_set(scr)), simulate=simulate, timeout=1500, workers=4,
                        spec="GSpecSim" if simulate else "GSpec")
         by = {}
         for x in h:
@@ -172,7 +172,7 @@ def run(ctx):
         sexh = [script([m1], "near", idle=1), script([m2], "near"), script([m1, m1], "near"), script([m2, m1], "ones", run=100000)]
     else:
         sexh = [script([m1], "near", idle=1), script([m2], "near", idle=1), script([m3], "near"), script([m1, m2], "near"),
-                script([m2, m2], "near"), script([m3, m1, m2], "ones", run=100000)]
+                script([m3, m1, m2], "ones", run=100000)]
     gen_sb("sb_exh", sexh, limit=1200 if q else 30000)
     gen_sb("sb_sim", [script(x, "sample", run=64, idle=4) for x in ([m1, m3, m2], [m2, m2, m1], [m3, m3])],
            simulate="num=%d" % (100 if q else 1500))
